@@ -35,7 +35,7 @@ func batchP(tag string, root Cfg, subs []Cfg, profs []*Profile) {
 				s.SigAlg = "ECDSAwithSHA256"
 			}
 		}
-		e := entity{name: fmt.Sprintf("s%03d", i), cfg: s, json: i%5 == 4}
+		e := entity{name: fmt.Sprintf("s%05d", i), cfg: s, json: i%5 == 4}
 		if kf, ok := suppliedKeys[s.Subject]; ok {
 			e.keyfile, e.keyPoint = kf.file, kf.point
 		}
